@@ -341,7 +341,7 @@ def run(tier):
     chk.coverage = {
         'evaluations': len(cases),
         'distinct_nontrivial': len(nontrivial),
-        'rule': 'programs: 1-4 functions (0-3 parameters drawn from a pool of names that are ALSO globals, host globals, library functions and built-in aliases; optional '
+        'rule': '+ round 7: a name bound to NULL in locals / globals still hides the built-in (Undefined function); an include statement inside a function body runs in the global scope (direct expectation and Coq model); programs: 1-4 functions (0-3 parameters drawn from a pool of names that are ALSO globals, host globals, library functions and built-in aliases; optional '
                 '"..." parameter) called with 0-5 arguments directly, through a variable, through systemPartial and as arraySort callbacks (fixed-arity and variadic '
                 'comparators); host configurations bind 0-5 of those names to numbers, strings, null, arrays or host functions; hand seeds for each clause; '
                 'expression-mode shadowing of built-in aliases by locals / globals; non-trivial = distinct program texts compared with the reference',
